@@ -961,10 +961,19 @@ func c20jEdits(r *vh.Rng, line string, i int) []c20jTamper {
 
 func c20jRun(rep *vh.Report, r *vh.Rng, n int, thorough bool) {
 	c20jProbes(rep, r, thorough)
+	// layout of the canonical form and decoder configuration, read off the running code (what the semantic edits are built from)
+	canon, err := c20jsProbeCanon()
+	if err != nil {
+		panic(err)
+	}
+	wu, err1 := c20jWriterUsesNumber()
+	vu, err2 := c20jVerifierUsesNumber()
+	literalNumbers := err1 == nil && err2 == nil && wu && vu
 	for sc := 0; sc < n; sc++ {
 		profile := []int{0, 1, 1, 1, 2, 1, 1, 1, 2, 1}[r.Intn(10)]
 		key := r.Bytes([]int{32, 32, 16, 1, 64, 65}[r.Intn(6)])
 		evs := c20jScenario(r, rep, profile, sc)
+		c20jsAugment(rep, canon, evs) // string members spelling other types / holding the separator tokens (own generator)
 		if sc == 0 {
 			// an entry the hook cannot decode (number out of float64 range): logrus drops it, the chain goes on
 			drop := c20Event{kind: evEntry, t: time.Date(2026, 3, 4, 5, 6, 7, 500, time.UTC), level: logrus.InfoLevel, msg: "dropped",
@@ -1080,6 +1089,8 @@ func c20jRun(rep *vh.Report, r *vh.Rng, n int, thorough bool) {
 				c++
 			}
 		}
+		// ---- semantic single-entry edits of every line (retype / respell / split / merge / move a boundary): c20jsem.go ----
+		c20jsOracle(rep, canon, literalNumbers, lab, key, phys, thorough)
 		// dropped entries that carried a reset do not occur: service entries are always written
 		join := func(ls []string) []byte { return c20Join(ls) }
 		verify := func(kind, detail string, ls []string) c20Verdict {
